@@ -112,6 +112,21 @@ def build_cases(seed, n_plain, n_fmt):
         # (UVL has no exponent notation and no non-finite numbers: C01 excludes such values, the text is not read back)
         cases.append({"spec": spec, "writers": writers, "digest": S.digest(spec), "kind": "floats",
                       "readable": {"uvl": False, "json": True}})
+    # one attribute name with values of different types on different features (an export that declares one type per
+    # name has to pick one - from the model, not from a set's iteration order)
+    for k in range(2):
+        r = rand.rng(seed, "c12mixedtypes", k)
+        spec = rand.rand_model(r, r.randint(6, 10), n_ctcs=1, ctc_depth=1, ops=RT.LOG7, multi_rel=False,
+                               group_kinds=("alternative", "or"))
+        fs = list(S.features(spec["root"]))
+        vals = ["text", 7, True, 2.5, None, "other", 0]
+        r.shuffle(vals)
+        for j, f in enumerate(fs[:6]):
+            f.setdefault("attrs", []).append({"name": "info", "value": vals[j % len(vals)]})
+            if j % 2:
+                f["attrs"].append({"name": "level", "value": [3, "x", False][j % 3]})
+        writers = ["uvl", "json"] + (["clafer"] if clafer_fragment(spec) else [])
+        cases.append({"spec": spec, "writers": writers, "digest": S.digest(spec), "kind": "attr-mixed-types"})
     for fname, fmt in RT.FORMATS.items():
         # (long XOR / mixed chains are exponential in the dependency's CNF conversion, which SPLOT uses)
         classes = [c for c in fmt.classes() if c[0] not in ("ctc:chain7-20", "ctc:chain17-70", "ctc:wide11-15")]
